@@ -1,14 +1,20 @@
 /-
-  C14 — progress: no deadlock, every step consumes a finite budget, and the bookkeeping
-  (calls made + calls to make = calls asked for) that turns the safety invariant into
-  "every maximal run completes every call with the caller's own reply".
+  C14 — progress: no deadlock (in particular: the join of the stopper cannot deadlock), every
+  step consumes a finite budget, and the bookkeeping (calls made + calls to make = calls asked
+  for) that turns the safety invariant into "every maximal run completes every call with the
+  caller's own reply".
 -/
 import PyIpmi.Lemmas.ThreadsStep
 namespace PyIpmi.Threads
 open PyIpmi.Spec.Threads
 
+/-- The only program points where a thread can be blocked: the lock, the timer/event of the
+keep-alive loop, the application's barrier, the join. -/
 theorem stepThr_isSome {s : Sys} {t : Nat} {th : Thr} (h1 : th.pc ≠ .done)
-    (h2 : th.pc = .acquire → s.lock = none) : (stepThr s t th).isSome = true := by
+    (h2 : th.pc = .acquire → s.lock = none)
+    (h3 : th.pc = .kaWait → s.stopped = true ∨ th.todo ≠ 0)
+    (h4 : th.pc = .await → allDone .worker s.thr = true)
+    (h5 : th.pc = .joinKa → allDone .keepAlive s.thr = true) : (stepThr s t th).isSome = true := by
   cases hpc : th.pc with
   | done => exact absurd hpc h1
   | acquire => simp [stepThr, hpc, h2 hpc]
@@ -19,32 +25,100 @@ theorem stepThr_isSome {s : Sys} {t : Nat} {th : Thr} (h1 : th.pc ≠ .done)
     | cons r q' => simp
     | nil => cases s.sock <;> simp
   | requeue => simp only [stepThr, hpc]; cases th.got <;> simp
+  | kaWait =>
+    simp only [stepThr, hpc]
+    rcases h3 hpc with h | h
+    · simp [h]
+    · split
+      · rfl
+      · simp [h]
+  | await => simp [stepThr, hpc, h4 hpc]
+  | joinKa => simp [stepThr, hpc, h5 hpc]
   | _ => simp [stepThr, hpc]
 
-/-- While some thread still has work to do, some thread can take a step. -/
-theorem deadlock_free {s : Sys} (hi : Inv s) {t0 : Nat} {th0 : Thr} (hget : s.thr[t0]? = some th0)
-    (hnd : th0.pc ≠ .done) : ∃ t, (step s t).isSome = true := by
+/-- A thread that has nothing left to do: finished, or the keep-alive loop sleeping in
+`stopped.wait` with no further interval to elapse and nobody having stopped it (a daemon thread). -/
+def parked (s : Sys) (th : Thr) : Prop :=
+  th.pc = .done ∨ (th.pc = .kaWait ∧ th.todo = 0 ∧ s.stopped = false)
+
+theorem not_allDone {k : Kind} {l : List Thr} (h : ¬ allDone k l = true) :
+    ∃ (t : Nat) (th : Thr), l[t]? = some th ∧ th.kind = k ∧ th.pc ≠ .done := by
+  simp only [allDone, List.all_eq_true, Bool.or_eq_true, bne_iff_ne, beq_iff_eq] at h
+  apply Classical.byContradiction
+  intro hn
+  apply h
+  intro x hx
+  obtain ⟨i, hi⟩ := List.getElem?_of_mem hx
+  by_cases hk : x.kind = k
+  · by_cases hd : x.pc = .done
+    · exact Or.inr hd
+    · exact absurd ⟨i, x, hi, hk, hd⟩ hn
+  · exact Or.inl hk
+
+/-- While some thread still has work to do, some thread can take a step.  The closing thread waits
+for the keep-alive thread at `joinKa` WITHOUT holding the lock (`Inv.owner`), the event is set
+(`Tear.stop`), so the keep-alive thread can always finish its call and leave its loop. -/
+theorem deadlock_free {s : Sys} (hi : Inv s) (ht : Tear s) {t0 : Nat} {th0 : Thr}
+    (hget : s.thr[t0]? = some th0) (hnp : ¬ parked s th0) : ∃ t, (step s t).isSome = true := by
   cases hl : s.lock with
-  | none =>
-    refine ⟨t0, ?_⟩
-    simp only [step, hget]
-    exact stepThr_isSome hnd (fun _ => hl)
   | some t =>
     obtain ⟨th, hth⟩ := hi.valid t hl
     have hin := (hi.owner t th hth).mpr hl
     refine ⟨t, ?_⟩
     simp only [step, hth]
+    apply stepThr_isSome <;> (intro h; rw [h] at hin; simp [inLock] at hin)
+  | none =>
+    -- a thread of kind `k` that is not finished can move, provided (keep-alive) the event is set
+    have other : ∀ (k : Kind) (t1 : Nat) (th1 : Thr), s.thr[t1]? = some th1 → th1.kind = k → th1.pc ≠ .done →
+        k ≠ .closer → (k = .keepAlive → s.stopped = true) → (step s t1).isSome = true := by
+      intro k t1 th1 h1 hk hd hnc hst
+      simp only [step, h1]
+      apply stepThr_isSome hd (fun _ => hl)
+      · intro hp
+        have := ht.kaPc _ _ h1 hp
+        exact Or.inl (hst (by rw [← hk, this]))
+      · intro hp
+        have := ht.closerPc _ _ h1 (by rw [hp]; rfl)
+        rw [hk] at this; exact absurd this hnc
+      · intro hp
+        have := ht.closerPc _ _ h1 (by rw [hp]; rfl)
+        rw [hk] at this; exact absurd this hnc
+    by_cases hA : th0.pc = .await ∧ ¬ allDone .worker s.thr = true
+    · obtain ⟨t1, th1, h1, hk, hd⟩ := not_allDone hA.2
+      exact ⟨t1, other .worker t1 th1 h1 hk hd (by intro h; cases h) (by intro h; cases h)⟩
+    by_cases hJ : th0.pc = .joinKa ∧ ¬ allDone .keepAlive s.thr = true
+    · obtain ⟨t1, th1, h1, hk, hd⟩ := not_allDone hJ.2
+      exact ⟨t1, other .keepAlive t1 th1 h1 hk hd (by intro h; cases h) (fun _ => ht.stop _ _ hget hJ.1)⟩
+    refine ⟨t0, ?_⟩
+    simp only [step, hget]
     apply stepThr_isSome
-    · intro h; rw [h] at hin; simp [inLock] at hin
-    · intro h; rw [h] at hin; simp [inLock] at hin
+    · intro h; exact hnp (Or.inl h)
+    · intro _; exact hl
+    · intro hp
+      cases hs : s.stopped with
+      | true => exact Or.inl rfl
+      | false =>
+        refine Or.inr ?_
+        intro h0
+        exact hnp (Or.inr ⟨hp, h0, hs⟩)
+    · intro hp
+      apply Classical.byContradiction
+      intro h; exact hA ⟨hp, h⟩
+    · intro hp
+      apply Classical.byContradiction
+      intro h; exact hJ ⟨hp, h⟩
 
-/-- Upper bound on the steps left in the current call. -/
+/-- Upper bound on the steps left in the current phase. -/
 def rank (xl : Nat) : PC → Nat
-  | .done => 0 | .release => 1 | .requeue => 2 | .recv => 3 | .send => 4 | .ssHdr k => k + 5
-  | .ssWrap => xl + 6 | .ssChk => xl + 7 | .ssStore => xl + 8 | .ssLoad => xl + 9
-  | .acquire => xl + 10 | .hdrLoad => xl + 11 | .incStore => xl + 12 | .idle => xl + 13
+  | .done => 0 | .actStore => 1 | .kaWait => 1 | .release => 2 | .requeue => 3 | .recv => 4 | .send => 5
+  | .ssHdr k => k + 6
+  | .ssWrap => xl + 7 | .ssChk => xl + 8 | .ssStore => xl + 9 | .ssLoad => xl + 10 | .actLoad => xl + 11
+  | .acquire => xl + 12 | .hdrLoad => xl + 13 | .incStore => xl + 14 | .idle => xl + 15
+  | .chkAct => xl + 16 | .joinKa => xl + 17 | .stopSet => xl + 18 | .await => xl + 19
 
-def work (xl : Nat) (th : Thr) : Nat := (th.todo - 1) * (xl + 13) + rank xl th.pc
+/-- calls still to begin (keep-alive: intervals that may still elapse) × length of a call + steps
+left in the current phase -/
+def work (xl : Nat) (th : Thr) : Nat := th.todo * (xl + 20) + rank xl th.pc
 
 def measure (s : Sys) : Nat := (s.thr.map (work s.xl)).sum
 
@@ -60,13 +134,45 @@ theorem sum_set {f : Thr → Nat} {l : List Thr} {t : Nat} {a b : Thr} (h : l[t]
       have := ih h'
       simp only [List.set_cons_succ, List.map_cons, List.sum_cons]; omega
 
-/-- What one step does to the stepping thread's own record. -/
-theorem stepThr_shape {s s' : Sys} {t : Nat} {th : Thr} (h : stepThr s t th = some s') :
-    ∃ th', s'.thr = s.thr.set t th' ∧ s'.xl = s.xl ∧ work s.xl th' < work s.xl th ∧ th'.cmd = th.cmd ∧
-      th.pc ≠ .done ∧
-      ((th'.todo = th.todo ∧ th'.results = th.results ∧ th'.pc ≠ .done) ∨
-       (th'.todo = th.todo - 1 ∧ th'.results.length = th.results.length + 1 ∧
-         (th'.pc = .done ↔ th.todo - 1 = 0))) := by
+theorem mul_pred_lt (n L a b : Nat) (hn : n ≠ 0) (hb : b < L + a) : (n - 1) * L + b < n * L + a := by
+  have : n = (n - 1) + 1 := by omega
+  generalize n - 1 = m at this
+  rw [this]
+  simp only [Nat.add_mul, Nat.one_mul]
+  omega
+
+theorem work_afterCall (xl : Nat) (th : Thr) (r : CallRes) :
+    work xl (afterCall th r) < th.todo * (xl + 20) + 2 := by
+  have hle : (th.todo - 1) * (xl + 20) ≤ th.todo * (xl + 20) := Nat.mul_le_mul_right _ (Nat.sub_le _ _)
+  cases hk : th.kind with
+  | keepAlive =>
+    simp only [work, afterCall, nextPc, hk, if_true]
+    cases r.isOk <;> simp [rank]
+  | worker =>
+    simp only [work, afterCall, nextPc, hk]
+    by_cases h0 : th.todo - 1 = 0
+    · simp [h0, rank]
+    · rw [if_neg (by simp), if_neg h0]
+      exact mul_pred_lt _ _ _ _ (by omega) (by simp [rank])
+  | closer =>
+    simp only [work, afterCall, nextPc, hk]
+    rw [if_neg (by simp)]
+    by_cases hc : th.closing = true
+    · rw [if_pos hc]
+      cases r.isOk <;> simp [rank] <;> omega
+    · rw [if_neg hc]
+      by_cases h0 : th.todo - 1 = 0
+      · simp [h0, rank]
+      · rw [if_neg h0]
+        by_cases h1 : th.todo - 1 = 1
+        · rw [if_pos h1]
+          exact mul_pred_lt _ _ _ _ (by omega) (by simp [rank])
+        · rw [if_neg h1]
+          exact mul_pred_lt _ _ _ _ (by omega) (by simp [rank])
+
+/-- What one step does to the stepping thread's own record: its work decreases. -/
+theorem stepThr_dec {s s' : Sys} {t : Nat} {th : Thr} (h : stepThr s t th = some s') :
+    ∃ th', s'.thr = s.thr.set t th' ∧ s'.xl = s.xl ∧ work s.xl th' < work s.xl th := by
   cases hpc : th.pc with
   | done => simp [stepThr, hpc] at h
   | acquire =>
@@ -74,63 +180,91 @@ theorem stepThr_shape {s s' : Sys} {t : Nat} {th : Thr} (h : stepThr s t th = so
     | some x => simp [stepThr, hpc, hl] at h
     | none =>
       simp [stepThr, hpc, hl] at h; subst h
-      exact ⟨_, rfl, rfl, by simp [work, rank, hpc], rfl, by simp, Or.inl ⟨rfl, rfl, by simp⟩⟩
+      exact ⟨_, rfl, rfl, by simp [work, rank, hpc]⟩
+  | actLoad =>
+    simp [stepThr, hpc] at h; subst h
+    refine ⟨_, rfl, rfl, ?_⟩
+    simp only [work, hpc]; split <;> simp [rank] <;> omega
   | ssHdr k =>
     cases k with
     | zero =>
       simp [stepThr, hpc] at h; subst h
-      exact ⟨_, rfl, rfl, by simp [work, rank, hpc], rfl, by simp, Or.inl ⟨rfl, rfl, by simp⟩⟩
+      exact ⟨_, rfl, rfl, by simp [work, rank, hpc]⟩
     | succ k =>
       simp [stepThr, hpc] at h; subst h
-      exact ⟨_, rfl, rfl, by simp [work, rank, hpc], rfl, by simp, Or.inl ⟨rfl, rfl, by simp⟩⟩
+      exact ⟨_, rfl, rfl, by simp [work, rank, hpc]⟩
   | ssChk =>
     simp [stepThr, hpc] at h; subst h
-    refine ⟨_, rfl, rfl, ?_, rfl, by simp, Or.inl ⟨rfl, rfl, ?_⟩⟩
-    · simp only [work, hpc]; split <;> simp [rank] <;> omega
-    · simp only []; split <;> simp
+    refine ⟨_, rfl, rfl, ?_⟩
+    simp only [work, hpc]; split <;> simp [rank] <;> omega
   | recv =>
     simp only [stepThr, hpc] at h
     cases hq : s.q with
     | cons r q' =>
       simp [hq] at h; subst h
-      refine ⟨_, rfl, rfl, ?_, rfl, by simp, Or.inl ⟨rfl, rfl, ?_⟩⟩
-      · simp only [work, hpc]; split <;> simp [rank]
-      · simp only []; split <;> simp
+      refine ⟨_, rfl, rfl, ?_⟩
+      simp only [work, hpc]; split <;> simp [rank]
     | nil =>
       cases hsk : s.sock with
       | cons r sk =>
         simp [hq, hsk] at h; subst h
-        refine ⟨_, rfl, rfl, ?_, rfl, by simp, Or.inl ⟨rfl, rfl, ?_⟩⟩
-        · simp only [work, hpc]; split <;> simp [rank]
-        · simp only []; split <;> simp
+        refine ⟨_, rfl, rfl, ?_⟩
+        simp only [work, hpc]; split <;> simp [rank]
       | nil =>
         simp [hq, hsk] at h; subst h
-        exact ⟨_, rfl, rfl, by simp [work, rank, hpc], rfl, by simp, Or.inl ⟨rfl, rfl, by simp⟩⟩
+        exact ⟨_, rfl, rfl, by simp [work, rank, hpc]⟩
   | requeue =>
     simp only [stepThr, hpc] at h
     cases hg : th.got with
     | some r =>
       simp [hg] at h; subst h
-      exact ⟨_, rfl, rfl, by simp [work, rank, hpc], rfl, by simp, Or.inl ⟨rfl, rfl, by simp⟩⟩
+      exact ⟨_, rfl, rfl, by simp [work, rank, hpc]⟩
     | none =>
       simp [hg] at h; subst h
-      exact ⟨_, rfl, rfl, by simp [work, rank, hpc], rfl, by simp, Or.inl ⟨rfl, rfl, by simp⟩⟩
+      exact ⟨_, rfl, rfl, by simp [work, rank, hpc]⟩
   | release =>
     simp [stepThr, hpc] at h; subst h
-    refine ⟨_, rfl, rfl, ?_, rfl, by simp, Or.inr ⟨rfl, by simp [afterCall], ?_⟩⟩
-    · simp only [work, hpc, afterCall, rank]
-      by_cases h0 : th.todo - 1 = 0
-      · simp [h0]
-      · simp only [h0, if_false]
-        have : th.todo - 1 = (th.todo - 1 - 1) + 1 := by omega
-        generalize th.todo - 1 - 1 = m at this
-        rw [this]
-        simp only [Nat.add_mul, Nat.one_mul]
-        omega
-    · simp only [afterCall]; split <;> simp_all
+    refine ⟨_, rfl, rfl, ?_⟩
+    have := work_afterCall s.xl th (match th.got with
+      | some r => CallRes.ok th.mine r.serial | none => CallRes.retryError th.mine)
+    simp only [work, hpc, rank] at this ⊢
+    exact this
+  | kaWait =>
+    simp only [stepThr, hpc] at h
+    split at h
+    · simp at h; subst h
+      exact ⟨_, rfl, rfl, by simp [work, rank, hpc]⟩
+    · split at h
+      · cases h
+      · rename_i h0
+        simp at h; subst h
+        refine ⟨_, rfl, rfl, ?_⟩
+        simp only [work, hpc, rank]
+        exact mul_pred_lt _ _ _ _ h0 (by omega)
+  | await =>
+    simp only [stepThr, hpc] at h
+    split at h
+    · simp at h; subst h
+      refine ⟨_, rfl, rfl, ?_⟩
+      simp only [work, hpc]; split <;> simp [rank]
+    · cases h
+  | stopSet =>
+    simp [stepThr, hpc] at h; subst h
+    refine ⟨_, rfl, rfl, ?_⟩
+    simp only [work, hpc, Sys.upd]; split <;> simp [rank]
+  | joinKa =>
+    simp only [stepThr, hpc] at h
+    split at h
+    · simp at h; subst h
+      exact ⟨_, rfl, rfl, by simp [work, rank, hpc]⟩
+    · cases h
+  | chkAct =>
+    simp [stepThr, hpc] at h; subst h
+    refine ⟨_, rfl, rfl, ?_⟩
+    simp only [work, hpc]; split <;> simp [rank] <;> omega
   | _ =>
     simp [stepThr, hpc] at h; subst h
-    exact ⟨_, rfl, rfl, by simp [work, rank, hpc], rfl, by simp, Or.inl ⟨rfl, rfl, by simp⟩⟩
+    exact ⟨_, rfl, rfl, by simp [work, rank, hpc]⟩
 
 /-- Every step strictly decreases the measure: no schedule makes more than `measure (init c)`
 effective steps. -/
@@ -140,88 +274,9 @@ theorem step_decreases {s s' : Sys} {t : Nat} (h : step s t = some s') : measure
   | none => simp [hget] at h
   | some th =>
     simp [hget] at h
-    obtain ⟨th', h1, h2, h3, _⟩ := stepThr_shape h
+    obtain ⟨th', h1, h2, h3⟩ := stepThr_dec h
     have := sum_set (f := work s.xl) (b := th') hget
     simp only [measure, h1, h2]
     omega
-
-/-- Bookkeeping invariant relative to the initial configuration. -/
-structure Acc (c : Cfg) (s : Sys) : Prop where
-  len : s.thr.length = c.threads.length
-  cnt : ∀ (t : Nat) (th : Thr), s.thr[t]? = some th → ∃ p, c.threads[t]? = some p ∧
-      th.results.length + th.todo = p.1 ∧ th.cmd = p.2 ∧ (th.pc = .done ↔ th.todo = 0)
-
-theorem init_acc (c : Cfg) : Acc c (init c) := by
-  constructor
-  · simp [init]
-  · intro t th hget
-    simp [init] at hget
-    obtain ⟨n, k, hp, rfl⟩ := hget
-    refine ⟨(n, k), hp, by simp [initThr], rfl, ?_⟩
-    simp only [initThr]
-    split <;> simp_all
-
-theorem step_acc {c : Cfg} {s s' : Sys} {t : Nat} (ha : Acc c s) (h : step s t = some s') : Acc c s' := by
-  unfold step at h
-  cases hget : s.thr[t]? with
-  | none => simp [hget] at h
-  | some th =>
-    simp [hget] at h
-    obtain ⟨th', h1, _, _, hc, hnd, hcase⟩ := stepThr_shape h
-    obtain ⟨p, hp, hcnt, hcmd, hdone⟩ := ha.cnt t th hget
-    constructor
-    · rw [h1, List.length_set]; exact ha.len
-    · intro t' b hb
-      rw [h1] at hb
-      rcases get_set_cases hget hb with ⟨rfl, rfl⟩ | ⟨_, hb⟩
-      · refine ⟨p, hp, ?_, by rw [hc, hcmd], ?_⟩
-        · rcases hcase with ⟨e1, e2, _⟩ | ⟨e1, e2, _⟩
-          · rw [e1, e2]; exact hcnt
-          · have : th.todo ≠ 0 := fun h0 => hnd (hdone.mpr h0)
-            rw [e1, e2]; omega
-        · rcases hcase with ⟨e1, _, e3⟩ | ⟨e1, _, e3⟩
-          · constructor
-            · intro h; exact absurd h e3
-            · intro h; rw [e1] at h; exact absurd (hdone.mpr h) hnd
-          · rw [e1]; exact e3
-      · exact ha.cnt _ _ hb
-
-theorem run_acc {c : Cfg} {s : Sys} (ha : Acc c s) (sched : List Nat) : Acc c (run s sched) := by
-  induction sched generalizing s with
-  | nil => exact ha
-  | cons t rest ih =>
-    simp only [run, List.foldl_cons]
-    cases hs : step s t with
-    | none => exact ih ha
-    | some s' => exact ih (step_acc ha hs)
-
-/-- In a state where no thread can move, every thread has made all the calls it was asked to
-make, and each call returned the reply to the datagram that thread itself transmitted. -/
-theorem terminal_complete {c : Cfg} {s : Sys} (hi : Inv s) (ha : Acc c s)
-    (hterm : ∀ t, step s t = none) (t : Nat) (p : Nat × Nat) (hp : c.threads[t]? = some p) :
-    ∃ th, s.thr[t]? = some th ∧ th.pc = .done ∧ th.results.length = p.1 ∧
-      ∀ r ∈ th.results, ∃ n, r = .ok n n ∧ sentBy s.wireChron t n = true := by
-  have hlt : t < s.thr.length := by
-    rw [ha.len]
-    rcases Nat.lt_or_ge t c.threads.length with h | h
-    · exact h
-    · rw [List.getElem?_eq_none h] at hp; cases hp
-  have hget : s.thr[t]? = some s.thr[t] := List.getElem?_eq_getElem hlt
-  refine ⟨s.thr[t], hget, ?_⟩
-  have hd : s.thr[t].pc = .done := by
-    apply Classical.byContradiction
-    intro hnd
-    obtain ⟨t1, h1⟩ := deadlock_free hi hget hnd
-    rw [hterm t1] at h1
-    cases h1
-  obtain ⟨p', hp', hcnt, _, hdone⟩ := ha.cnt t _ hget
-  rw [hp] at hp'
-  injection hp' with hp'
-  subst hp'
-  refine ⟨hd, ?_, ?_⟩
-  · have := hdone.mp hd; omega
-  · intro r hr
-    obtain ⟨n, h1, h2⟩ := hi.res t _ hget r hr
-    exact ⟨n, h1, by rw [Sys.wireChron, sentBy_reverse]; exact h2⟩
 
 end PyIpmi.Threads
